@@ -40,6 +40,9 @@ def main():
             if f.endswith(".rs"):
                 os.makedirs(os.path.join(scratch, "ipp/tests"), exist_ok=True)
                 shutil.copy(os.path.join(demo_dir, f), os.path.join(scratch, "ipp/tests", f))
+            elif os.path.isdir(os.path.join(demo_dir, f)):
+                shutil.copytree(os.path.join(demo_dir, f), os.path.join(scratch, f), dirs_exist_ok=True)
+                shutil.copytree(os.path.join(demo_dir, f), os.path.join(scratch, "ipp/tests", f), dirs_exist_ok=True)
             else:
                 shutil.copy(os.path.join(demo_dir, f), os.path.join(scratch, f))
         d1 = sh("( " + demo_cmd + " ) 2>&1", scratch, env)
